@@ -869,6 +869,7 @@ def confirm(S, info, prop='C03'):
 
 # documents that show a defect recorded as an open known finding: the key carries the document's id, so that nothing else is suppressed
 KNOWN_DEFECT_DOCS = {
+    '$ mat(a, // c\n b; c) $\n': 'math-row-with-a-line-comment',
     '* - a\nb *\n': 'strong-body-that-starts-with-a-dash',
     'text #box[- a\n           b]\n': 'list-item-in-a-content-block-on-a-text-line',
     '#let x = [ #f(aaaaaaaaaaaa, bbbbbbbbbbbbbb, cccccccccccccc, ddddddddddddd, eeeeeeeeeeeeee, fffffffffff)]\n': 'content-block-with-a-left-blank-whose-call-breaks',
